@@ -454,8 +454,11 @@ theorem lookup_plain (l : List (Name × List Nat)) (hl : ∀ p ∈ l, p.1.all pl
     simp only [beq_iff_eq] at he
     rw [← he]; exact hl p hm
 
-theorem idxChar_plain (c : Char) (h : idxChar c = true) : plain c = true := by
-  simp only [idxChar, Bool.or_eq_true] at h
+/-- digits and lower-case letters: the characters `genIndicesGo` accepts -/
+def isIdxCh (c : Char) : Bool := isDigit c || ('a' ≤ c && c ≤ 'z')
+
+theorem idxChar_plain (c : Char) (h : isIdxCh c = true) : plain c = true := by
+  simp only [isIdxCh, Bool.or_eq_true] at h
   rcases h with h | h
   · exact isDigit_plain c h
   · simp only [Bool.and_eq_true, decide_eq_true_eq] at h
@@ -486,7 +489,7 @@ theorem genIndicesGo_plain (cs : List Char) : ∀ (ops : Ops) (shape : List Nat)
       · simp only [List.all_cons, isDigit_plain c hc, Bool.true_and]; exact ih _ _ _ _ _ h
     · split at h
       · rename_i hnd hc
-        have : idxChar c = true := by simp [idxChar, hc]
+        have : isIdxCh c = true := by simp [isIdxCh, hc]
         simp only [List.all_cons, idxChar_plain c this, Bool.true_and]; exact ih _ _ _ _ _ h
       · simp [fail] at h
 
